@@ -18,6 +18,10 @@ func (*inRange) Exit(node *Node) {
 			if t := n.Left.Type(); t != nil && t.Kind() != reflect.Int {
 				return
 			}
+			// The left side is evaluated twice after the rewrite.
+			if !repeatable(n.Left) {
+				return
+			}
 			if rng, ok := n.Right.(*BinaryNode); ok && rng.Operator == ".." {
 				if from, ok := rng.Left.(*IntegerNode); ok {
 					if to, ok := rng.Right.(*IntegerNode); ok {
@@ -45,4 +49,18 @@ func (*inRange) Exit(node *Node) {
 			}
 		}
 	}
+}
+
+// repeatable tells whether evaluating the node twice is the same as
+// evaluating it once: plain access to variables, without calls.
+func repeatable(node Node) bool {
+	switch n := node.(type) {
+	case *IdentifierNode, *PointerNode, *IntegerNode:
+		return true
+	case *PropertyNode:
+		return repeatable(n.Node)
+	case *IndexNode:
+		return repeatable(n.Node) && repeatable(n.Index)
+	}
+	return false
 }
